@@ -434,5 +434,36 @@ def run(chk):
     import_rules(chk, fx)
     from sa.props import c19
     chk.notes.append('C20-R2 is decided by C19-R3 (same engine); run ./check C19')
+    linker_rule(chk, fx)
     return ('Who-may-call rule on the resolved call graph plus a dominance rule in Context::get_mod_with_path. Termination, once-only analysis and cycle handling depend on schedules '
             'and are not decided.'), {}
+
+
+def linker_rule(chk, fx):
+    """the linker inlines every imported module as `%v_hir_linker_N = module(..)`: one counter for the whole link, or two modules get one Python object"""
+    LINK = 'crates/erg_compiler/link_hir.rs'
+    chk.rule('C20-R10', 'every imported module gets its own module object when the modules are linked into one program: a HIRLinker made for a nested import (HIRLinker::inherit, and any '
+                        'other constructor of HIRLinker called from a method of HIRLinker) takes the fresh-name generator of its parent (`self.fresh_gen.clone()`, a shared counter); a new '
+                        'generator restarts at `%v_hir_linker_1`, so a module imported from main and one imported from inside another module become one Python module (one `__dict__`)')
+    n = 0
+    for f in fx.file(LINK)['fns']:
+        nm = T.norm(f['path'])
+        if not nm.startswith('HIRLinker::'):
+            continue
+        has_self = any(p_.get('n') == 'self' for p_ in (f.get('params') or []))
+        for st in T.walk(f['body']):
+            if st.get('k') == 'Struct' and (T.last_seg(st.get('d') or '') in ('HIRLinker', 'Self') or (st.get('d') or '').startswith('SelfTyAlias')):
+                for fld in st.get('f', []):
+                    if fld.get('n') == 'fresh_gen':
+                        n += 1
+                        src = T.show(fld['x'])
+                        shared = 'self.fresh_gen' in src.replace(' ', '')
+                        if not has_self:
+                            chk.ok('C20-R10', (nm, 'root'), sample='%s (no parent): %s' % (nm, src[:50]))
+                        elif shared:
+                            chk.ok('C20-R10', (nm, 'child'), sample='%s: fresh_gen: %s' % (nm, src[:50]))
+                        else:
+                            chk.bad('C20-R10', nm, 'own-generator', '%s builds a HIRLinker for a nested module with `fresh_gen: %s` instead of the generator of its parent: module objects '
+                                    'of different nesting levels get the same name `%%v_hir_linker_N`, and importers read another module\'s bindings (`c.x` prints the value b assigned)'
+                                    % (nm, src[:50]), LINK, st.get('l'))
+    chk.floor('constructions of HIRLinker', n, 2)
